@@ -238,7 +238,7 @@ class Interp:
     def _snap(self):
         from jaxtyping import _storage
 
-        depth = len(getattr(_storage._shape_storage, "memo_stack", []) or [])
+        depth = stack_depth()
         return canon_bindings(bindings()), depth
 
     def run(self, progs):
@@ -372,11 +372,50 @@ def run_program(progs, checker="typeguard", rng=None, reset=True):
     return obs, residual_state(reset=reset)
 
 
+def stack_depth():
+    """number of open binding contexts of the calling thread. Reads the private stack where it is today; when the
+    representation differs, looks for the stack in any module-level thread-local / context variable, and as a last
+    resort answers 0 / 1 from the module's own emptiness test"""
+    import contextvars
+    import threading
+
+    from jaxtyping import _storage
+
+    st = getattr(_storage, "_shape_storage", None)
+    if st is not None and not isinstance(st, contextvars.ContextVar):
+        return len(getattr(st, "memo_stack", []) or [])
+    for v in vars(_storage).values():
+        if isinstance(v, contextvars.ContextVar):
+            cur = v.get(None)
+            if isinstance(cur, list):
+                return len(cur)
+        elif isinstance(v, threading.local):
+            for a in vars(v).values():
+                if isinstance(a, list) and all(isinstance(x, tuple) and len(x) == 4 for x in a):
+                    return len(a)
+    try:
+        return 1 if _storage._has_shape_memo() else 0
+    except Exception:  # noqa: BLE001
+        return -1
+
+
+def drain_stack():
+    from jaxtyping import _storage
+
+    for _ in range(64):
+        try:
+            if not _storage._has_shape_memo():
+                return
+            _storage.pop_shape_memo()
+        except Exception:  # noqa: BLE001
+            return
+
+
 def residual_state(reset=True):
     """What the thread-local storage holds now (public probes first, then a peek)."""
     from jaxtyping import _storage
 
-    depth = len(getattr(_storage._shape_storage, "memo_stack", []) or []) if hasattr(_storage, "_shape_storage") else -1
+    depth = stack_depth()
     try:
         flatten = bool(_storage.get_treeflatten_memo())
     except Exception:
@@ -386,7 +425,7 @@ def residual_state(reset=True):
     if reset:
         # never let one case contaminate the next
         if depth and depth > 0:
-            del _storage._shape_storage.memo_stack[:]
+            drain_stack()
         try:
             _storage.clear_treeflatten_memo()
             _storage.clear_treepath_memo()
